@@ -47,6 +47,7 @@ def routing_configs(sizes=(5, 8)):
             dict(env="pdp", n=n + (n % 2), start_depot=True),
             dict(env="mtsp", n=n, cost_type="minmax", agents=(2, 3)),
             dict(env="mtsp", n=n, cost_type="sum", agents=(2, 3)),
+            dict(env="mtsp", n=n, cost_type="minmax", agents=(1, 4)),  # batch rows differing widely in their number of agents
         ]
         for p in MTVRP_PRESETS:
             out.append(dict(env="mtvrp", n=n, preset=p))
@@ -396,6 +397,9 @@ def select_configs(tier="quick"):
     for items, sets, k in ([(8, 5, 2), (12, 6, 3), (10, 4, 4), (9, 5, 1)] if tier == "quick" else [(8, 5, 2), (12, 6, 3), (10, 4, 4), (9, 5, 1), (40, 15, 5)]):
         out.append(dict(env="mcp", n=sets, items=items, k=k))
     out.append(dict(env="mcp", n=100, items=200, k=10, min_size=5, max_size=15))  # the generator's default size
+    # empty sets (documented: min_size=0; the membership matrix is zero padded) and more sets to choose than there are non-empty ones
+    out.append(dict(env="mcp", n=7, items=6, k=6, min_size=0, max_size=1))
+    out.append(dict(env="mcp", n=6, items=8, k=4, min_size=0, max_size=2))
     for size, kmin, kmax, dec in ([(4, 1, 4, 3), (5, 3, 10, 6), (4, 5, 6, 10)] if tier == "quick" else [(4, 1, 4, 3), (5, 3, 10, 6), (4, 5, 6, 10), (6, 5, 20, 12)]):
         out.append(dict(env="dpp", n=size * size, size=size, kmin=kmin, kmax=kmax, decaps=dec))
     # MDPPEnv always builds a default DPPGenerator first (default files, 10x10, max_decaps=20) and keeps ITS size /
